@@ -102,6 +102,22 @@ def search(rep: C.Report, tier: str, broken):
         except Exception as ex:  # noqa: BLE001
             rep.count("hydro construction raised " + type(ex).__name__)
             continue
+        # a detonation as the FIRST request on a freshly built object (no deflagration/hybrid solve has run on it), and the same request after a
+        # slow deflagration: both must be the exact matching of this equation of state
+        try:
+            from WallGo.hydrodynamics import Hydrodynamics as _H
+            hf = _H(th, 10.0, 0.01, 1e-6, 1e-10)
+            vdet = min(hf.vJ + 0.03, 0.97)
+            if vdet > hf.vJ:
+                first = check_matching(rep, name + " [fresh object, detonation first]", th, hf, vdet, tier)
+                hf.findMatching(0.5 * (hf.vMin + min(hf.vJ, 0.5)))
+                again = hf.findMatching(vdet)
+                if first and first.get("vp") is not None and max(abs(float(a) - b) for a, b in zip(again, (first["vp"], first["vm"], first["Tp"], first["Tm"]))) > 1e-12:
+                    rep.violation("the matching returned for a detonation depends on which requests were made on the object before",
+                                  {"eos": name, "vw": vdet, "first_request_on_fresh_object": [first["vp"], first["vm"], first["Tp"], first["Tm"]],
+                                   "after_a_deflagration_request": [float(x) for x in again]}, finding_key="C02:history")
+        except Exception as ex:  # noqa: BLE001
+            rep.count("fresh-object detonation raised " + type(ex).__name__)
         for vw in HC.velocities(h, r, nv):
             info = check_matching(rep, name, th, h, vw, tier)
             if not info or "backward_error" not in info:
